@@ -63,7 +63,7 @@ func obligationScript(ob *Obligation, wantModel bool) string {
 	walk(ob.Goal)
 	as := append([]*Term{}, strLitFacts(used)...)
 	as = append(as, ob.Assume...)
-	if ob.Kind == "cover" {
+	if ob.Kind == "cover" || ob.Kind == "reach" {
 		return theU.Script(logicPrelude, as, nil, false)
 	}
 	return theU.Script(logicPrelude, as, ob.Goal, wantModel)
@@ -82,10 +82,10 @@ func discharge(obs []*Obligation, outDir string, timeoutS int, order []string, w
 					ob.Result = SolveResult{Status: "unsat", Backend: "simplifier"}
 					continue
 				}
-				script := obligationScript(ob, ob.Kind != "cover")
+				script := obligationScript(ob, ob.Kind != "cover" && ob.Kind != "reach")
 				file := filepath.Join(outDir, fmt.Sprintf("%04d-%s", i, fileSafe(ob.Name)))
 				r := Solve(script, file, timeoutS, order)
-				if ob.Kind == "cover" {
+				if ob.Kind == "cover" || ob.Kind == "reach" {
 					// expected: satisfiable
 					switch r.Status {
 					case "sat":
@@ -172,7 +172,7 @@ func loadKnownFindings(path string) []KnownFinding {
 // contractLevel: obligation kinds recorded in the ledger (their disappearance is a failure).
 func contractLevel(kind string) bool {
 	switch kind {
-	case "ensures", "inv", "variant", "frame", "lemma", "chaninv", "stable", "cover", "static", "typeinv":
+	case "ensures", "inv", "variant", "frame", "lemma", "chaninv", "stable", "cover", "static", "typeinv", "reach":
 		return true
 	}
 	return false
@@ -241,7 +241,7 @@ func RunCheck(opt Options) int {
 		if opt.Only != "" && !strings.Contains(relName(fn), opt.Only) {
 			continue
 		}
-		rep := P.VerifyFunc(fn, P.Contracts[fn], true, 4096)
+		rep := P.VerifyFunc(fn, P.Contracts[fn], true, 4096, opt.Prop)
 		reports = append(reports, rep)
 		obs = append(obs, rep.Obligations...)
 	}
@@ -268,7 +268,7 @@ func RunCheck(opt Options) int {
 			if opt.Only != "" && !strings.Contains(relName(fn), opt.Only) {
 				continue
 			}
-			rep := P.VerifyFunc(fn, P.Contracts[fn], false, 2048)
+			rep := P.VerifyFunc(fn, P.Contracts[fn], false, 2048, opt.Prop)
 			reports = append(reports, rep)
 			obs = append(obs, rep.Obligations...)
 			sweepFns++
@@ -364,6 +364,10 @@ func RunCheck(opt Options) int {
 	discharged := 0
 	for _, n := range names {
 		nr := byName[n]
+		if nr.Kind == "reach" && len(nr.Failed) < nr.Instances {
+			// one feasible return path is enough
+			nr.Failed = nil
+		}
 		if len(nr.Failed) == 0 {
 			discharged++
 			continue
